@@ -682,7 +682,84 @@ func xbufDescribe(fn *ssa.Function) (sites []string, reason string) {
 				if len(t.Results) != 1 || t.Results[0] != x.recv {
 					x.fail("does not return its receiver")
 				}
-			case *ssa.UnOp, *ssa.Convert, *ssa.ChangeType, *ssa.Phi, *ssa.If, *ssa.Jump, *ssa.DebugRef, *ssa.Alloc:
+			case *ssa.If:
+				// a branch is either the test of a recognised loop or a redundant guard around one (`if n > len(s)`
+				// in front of `for i := len(s); i < n; i++`): anything else would make an append conditional
+				isHeader := false
+				for _, l := range x.loops {
+					if l.Header == b {
+						isHeader = true
+					}
+				}
+				if isHeader {
+					break
+				}
+				okGuard := false
+				if cmp, isB := t.Cond.(*ssa.BinOp); isB {
+					var hi, lo ssa.Value
+					switch cmp.Op {
+					case token.GTR:
+						hi, lo = cmp.X, cmp.Y
+					case token.LSS:
+						hi, lo = cmp.Y, cmp.X
+					}
+					if hi != nil {
+						hl, ok1 := x.linear(hi, 0)
+						ll, ok2 := x.linear(lo, 0)
+						if ok1 && ok2 {
+							d := map[string]int64{}
+							for k, c := range hl {
+								d[k] += c
+							}
+							for k, c := range ll {
+								d[k] -= c
+							}
+							for _, l := range x.loops {
+								cnt, okc := x.countLoop(l)
+								// skipping the loop and leaving it arrive at the same place (through empty blocks)
+								through := func(blk *ssa.BasicBlock) *ssa.BasicBlock {
+									for n := 0; n < 8 && len(blk.Instrs) == 1 && len(blk.Succs) == 1; n++ {
+										if _, isJ := blk.Instrs[0].(*ssa.Jump); !isJ {
+											break
+										}
+										blk = blk.Succs[0]
+									}
+									return blk
+								}
+								if !okc || cnt != linearString(d) || !edgeDominates(b, 0, l.Header) || through(b.Succs[1]) != through(l.Header.Succs[1]) {
+									continue
+								}
+								// nothing but the loop lies behind the guard
+								clean := true
+								for _, ob := range fn.Blocks {
+									if ob == b || l.Body[ob] || ob == l.Header.Succs[1] || !edgeDominates(b, 0, ob) {
+										continue
+									}
+									if l.Header.Succs[1].Dominates(ob) || through(b.Succs[1]).Dominates(ob) {
+										continue // after the loop: reached either way
+									}
+									for _, oi := range ob.Instrs {
+										switch y := oi.(type) {
+										case *ssa.Store:
+											clean = false
+										case *ssa.Call:
+											if bi, isB := y.Call.Value.(*ssa.Builtin); !isB || (bi.Name() != "len" && bi.Name() != "cap") {
+												clean = false
+											}
+										}
+									}
+								}
+								if clean {
+									okGuard = true
+								}
+							}
+						}
+					}
+				}
+				if !okGuard {
+					x.fail("the branch on %s is neither a loop test nor a redundant guard of a counted loop: an append would be conditional", t.Cond)
+				}
+			case *ssa.UnOp, *ssa.Convert, *ssa.ChangeType, *ssa.Phi, *ssa.Jump, *ssa.DebugRef, *ssa.Alloc:
 				if al, ok := t.(*ssa.Alloc); ok && al.Comment != "varargs" {
 					x.fail("local allocation %s", al.Comment)
 				}
